@@ -475,3 +475,42 @@ func sameValue(a, b ssa.Value) bool {
 	}
 	return false
 }
+
+// underflowGuard interprets an If as a guard "fewer than k elements": it returns k and the
+// successor index of the edge taken when the tested length is below k.  All the usual spellings
+// are covered: len < k, len <= k-1, k > len, len == 0, !(len >= k), and the same tests with the
+// branches swapped.
+func underflowGuard(ifi *ssa.If, isLen func(ssa.Value) bool) (k int64, errSucc int, ok bool) {
+	for _, truth := range []bool{true, false} {
+		m, isCmp := asCmp(cond{ifi.Cond, truth, ifi.Block()})
+		if !isCmp {
+			return 0, 0, false
+		}
+		x, y, op := origin(m.x), origin(m.y), m.op
+		if _, isC := constInt(x); isC && isLen(y) {
+			x, y, op = y, x, swapOp(op)
+		}
+		if !isLen(x) {
+			return 0, 0, false
+		}
+		kk, isC := constInt(y)
+		if !isC {
+			return 0, 0, false
+		}
+		succ := 0
+		if !truth {
+			succ = 1
+		}
+		switch op {
+		case token.LSS:
+			return kk, succ, true
+		case token.LEQ:
+			return kk + 1, succ, true
+		case token.EQL:
+			if kk == 0 {
+				return 1, succ, true
+			}
+		}
+	}
+	return 0, 0, false
+}
